@@ -607,6 +607,17 @@ theorem floatloop_sq_only_on_yields (sq : α → α) (num : List α)
   unfold parcorFixedG at h ⊢
   exact ploopG_congr sq (fun k => k * k) _ _ _ _ h
 
+/-- **C11.9d (why the code survives `g * (1 / g) ≠ 1.0`)** on ANY carrier — no law of arithmetic is
+used, so also on binary64 — the yields and the break-down of the loop from counter `m` depend on the
+coefficients at delays `1 … m` only: not on the coefficient of `z⁰` (`0.9999999999999999` after a
+float normalisation), not on what sits beyond delay `m` (the residue `k - k·a₀` of the previous step)
+or at negative delays (its mirror image under `A(1/z)·z⁻ᵐ`), not on the constant denominator.  A
+backward predictor taken from the coefficient LIST instead (which shifts when a residue makes the list
+longer) does not have this property. -/
+theorem yields_depend_on_inner_delays (sq : α → α) (n : Nat) (d d' : α) (m : Nat) (w w' : List α)
+    (h : ∀ i : Int, 1 ≤ i → i ≤ (m : Int) → lget n w i = lget n w' i) :
+    ploopG sq n d m w = ploopG sq n d' m w' := ploopG_inner sq n d d' m w w' h
+
 /-- **C11.9c** `all(abs(k) < 1 for k in parcor(…))` under `try/except ParCorError` = draining the
 generator, for ANY squaring function — so the float verdict is a function of the float yields. -/
 theorem floatloop_stable_eq_drained [LT α] [DecidableLT α] (sq : α → α) (den : List α) :
@@ -737,6 +748,10 @@ example : parcorStableFixed (fromPoles (3 : Rat) [1000000001/1000000000, 1/2] []
 example : cutAtUnit ([1/4, -1, 1/2, 1, 1/3] : List Rat) = ([1/4, -1], true) := by decide +kernel
 -- section 9: the parameterised loop on Rat
 example : parcorFixedG (fun k => k * k) ([98, -105, 34, -3] : List Rat) = ([-3/98, 3017/9595, -849/1051], false) := by
+  decide +kernel
+example : ploopG (fun k => k * k) 3 1 2 ([7, 0, 0, 1, 1/2, 1/3, 9] : List Rat)
+    = ploopG (fun k => k * k) 3 5 2 ([0, 0, -4, 99/100, 1/2, 1/3, 0] : List Rat) := by decide +kernel
+example : ploopG (fun k => k * k) 3 1 2 ([7, 0, 0, 1, 1/2, 1/3, 9] : List Rat) = ([1/3, 3/8], false) := by
   decide +kernel
 -- section 10: call kinds
 example : parcorCall 0 ([2, 1] : List Rat) 0 [5] = .ok [1/2] false := by decide +kernel
